@@ -30,8 +30,8 @@ def _roundtrip(E, obj, index_base=None, peek=None):
         os.unlink(path)
 
 
-@ob("C16", params=[dict(shape=(3,)), dict(shape=(2, 3)), dict(shape=(2, 1, 3)), dict(shape=(2, 3, 2)), dict(shape=(1, 1)), dict(shape=(2, 2, 2, 2), _tier="thorough")],
-    bounds="dense tensors with symbolic entries, N in {1,2,3}(4), singleton modes")
+@ob("C16", params=[dict(shape=(3,)), dict(shape=(2, 3)), dict(shape=(2, 1, 3)), dict(shape=(2, 3, 2)), dict(shape=(1, 1)), dict(shape=(2, 3, 2, 2)), dict(shape=(2, 1, 3, 2, 2), _tier="thorough")],
+    bounds="dense tensors with symbolic entries, N in {1,2,3,4}(5), singleton modes")
 def dense_roundtrip(E, shape):
     """tensor -> file -> tensor: same type and shape, every cell identical"""
     X = O.dense(E, "x", shape)
